@@ -131,7 +131,8 @@ def coord_value(special=True):
 @functools.cache
 def labels(mol2_safe=False):
     if mol2_safe:
-        return st.one_of(st.none(), st.just(""), st.text("ABCDEFGHIJKLMNOPQRSTUVWXYZabcxyz0123456789_*'+-", min_size=1, max_size=6))
+        return st.one_of(st.none(), st.just(""), st.text("ABCDEFGHIJKLMNOPQRSTUVWXYZabcxyz0123456789_*'+-#@<>.,:;!?()[]{}/\\|=%&$~^\"", min_size=1, max_size=6),
+                         st.sampled_from(["H#1", "#", "C@", "@<TRIPOS>ATOM", "1", "0.5", "nan"]))
     return st.one_of(st.none(), st.just(""), st.text(max_size=6), st.sampled_from(["C1", "H 2", "α"]))
 
 
@@ -172,7 +173,10 @@ def bond_fields(full=True, attribs=True):
 @functools.cache
 def names(mol2_safe=False):
     if mol2_safe:
-        return st.text("ABCDEFGHIJKLMNOPQRSTUVWXYZabcdefghijklmnopqrstuvwxyz0123456789_-+.()[] ", min_size=1, max_size=12).map(str.strip).filter(lambda s: len(s) > 0)
+        return st.one_of(
+            st.text("ABCDEFGHIJKLMNOPQRSTUVWXYZabcdefghijklmnopqrstuvwxyz0123456789_-+.()[] #@<>,:;!?{}/\\|=%&$~^'\"*", min_size=1, max_size=12).map(str.strip).filter(lambda s: len(s) > 0),
+            st.sampled_from(["ligand #7 (batch A)", "#1", "# Produced", "@<TRIPOS>MOLECULE", "@<TRIPOS>ATOM", "****", "12 3", "a  b"]),
+        )
     return st.one_of(st.none(), st.just(""), st.text(max_size=10), st.sampled_from(["mol", "a b", "x_1"]))
 
 
